@@ -156,11 +156,11 @@ def check(run):
         return
     found_before = len(run.violations) + len(run.known_hit)
     progs, metas = [], []
-    for _ in range(3000 if thorough else 400):
+    for _ in range(4000 if thorough else 1200):
         lines, meta = managed_program(rng, thorough)
         progs.append(lines)
         metas.append(meta)
-    for _ in range(60 if thorough else 15):
+    for _ in range(80 if thorough else 30):
         lines, meta = error_program(rng)
         progs.append(lines)
         metas.append(meta)
